@@ -243,9 +243,9 @@ theorem invS_of_tables {rd rd' : Reader} {S : Sums} (h : InvS rd S)
   unfold InvS; rw [hp, hi]; exact h
 
 /-- One reported record: the item is the expected one and the invariant is re-established. -/
-theorem post_sums {cfg : Cfg} {rd rd' : Reader} {S : Sums} {m : FItem} {out : Item}
+theorem post_sums {rd rd' : Reader} {S : Sums} {m : FItem} {out : Item}
     (hI : InvS rd S) (hrg : ItemInRange m) (hnts : ∀ dt, m ≠ .tickSkip dt)
-    (h : rd.post cfg m = .item out rd') :
+    (h : rd.post m = .item out rd') :
     expectedItem S m = some out ∧ InvS rd' (S.step m) := by
   obtain ⟨hP, hN⟩ := hI
   unfold Reader.post at h
@@ -264,16 +264,14 @@ theorem post_sums {cfg : Cfg} {rd rd' : Reader} {S : Sums} {m : FItem} {out : It
     · simp at h
     · split at h
       · simp at h
-      · split at h
-        · simp at h
-        · simp only [Post.item.injEq] at h
-          obtain ⟨rfl, rfl⟩ := h
-          refine ⟨rfl, ?_, hN⟩
-          intro c'
-          simp only [Sums.step, setAt, tGet_tSet]
-          split
-          · simp [wrapPos, wrap32_of_inI32 hrg.1, wrap32_of_inI32 hrg.2]
-          · exact hP c'
+      · simp only [Post.item.injEq] at h
+        obtain ⟨rfl, rfl⟩ := h
+        refine ⟨rfl, ?_, hN⟩
+        intro c'
+        simp only [Sums.step, setAt, tGet_tSet]
+        split
+        · simp [wrapPos, wrap32_of_inI32 hrg.1, wrap32_of_inI32 hrg.2]
+        · exact hP c'
   | playerDiff c dx dy =>
     simp only [FItem.cid] at h
     split at h
@@ -329,16 +327,14 @@ theorem post_sums {cfg : Cfg} {rd rd' : Reader} {S : Sums} {m : FItem} {out : It
     simp only [FItem.cid] at h
     split at h
     · simp at h
-    · split at h
-      · simp at h
-      · simp only [Post.item.injEq] at h
-        obtain ⟨rfl, rfl⟩ := h
-        refine ⟨rfl, hP, ?_⟩
-        intro c'
-        simp only [Sums.step, setAt, tGet_tSet]
-        split
-        · simp [map_wrap32_id hrg]
-        · exact hN c'
+    · simp only [Post.item.injEq] at h
+      obtain ⟨rfl, rfl⟩ := h
+      refine ⟨rfl, hP, ?_⟩
+      intro c'
+      simp only [Sums.step, setAt, tGet_tSet]
+      split
+      · simp [map_wrap32_id hrg]
+      · exact hN c'
   | inputDiff c d =>
     simp only [FItem.cid] at h
     split at h
@@ -363,8 +359,8 @@ theorem post_sums {cfg : Cfg} {rd rd' : Reader} {S : Sums} {m : FItem} {out : It
             · simp [this, zipAdd_map_wrap]
             · exact hN c'
 
-theorem post_tickSkip_tables {cfg : Cfg} {rd rd' : Reader} {dt : Int} {out : Item}
-    (h : rd.post cfg (.tickSkip dt) = .item out rd') :
+theorem post_tickSkip_tables {rd rd' : Reader} {dt : Int} {out : Item}
+    (h : rd.post (.tickSkip dt) = .item out rd') :
     isTick out = true ∧ rd'.players = rd.players ∧ rd'.inputs = rd.inputs := by
   rw [post_tickSkip] at h
   repeat' split at h
@@ -424,7 +420,7 @@ theorem interp_sums (cfg : Cfg) : ∀ (rs : List Rec) (t : Tail) (rd : Reader) (
         cases hm : msgKind r.item with
         | finish =>
           rw [hm] at hcls
-          obtain ⟨rd3, hpost⟩ := post_finish cfg rd2
+          obtain ⟨rd3, hpost⟩ := post_finish rd2
           rw [hcls.2, hpost]
           simp [expectedItems, hrep0]
         | tickSkip dt =>
@@ -432,7 +428,7 @@ theorem interp_sums (cfg : Cfg) : ∀ (rs : List Rec) (t : Tail) (rd : Reader) (
           obtain ⟨_, _, hi⟩ := hcls
           rw [hi]
           simp only [expectedItems]
-          cases hpost : rd2.post cfg (.tickSkip dt) with
+          cases hpost : rd2.post (.tickSkip dt) with
           | finished rd3 =>
             exfalso
             rw [post_tickSkip] at hpost
@@ -440,7 +436,6 @@ theorem interp_sums (cfg : Cfg) : ∀ (rs : List Rec) (t : Tail) (rd : Reader) (
             · simp at hpost
             · split at hpost <;> simp at hpost
           | err e rd3 => simp [hrep0]
-          | oom rd3 => simp [hrep0]
           | item out rd3 =>
             obtain ⟨hto, hp3, hi3⟩ := post_tickSkip_tables hpost
             have := ih t rd3 S hwf' (invS_of_tables hI2 hp3 hi3)
@@ -455,14 +450,13 @@ theorem interp_sums (cfg : Cfg) : ∀ (rs : List Rec) (t : Tail) (rd : Reader) (
               expectedItem S r.item :: expectedItems (S.step r.item) (rs.map Rec.item) := by
             cases hi : r.item <;> rw [hi] at hm <;> simp [msgKind] at hm <;> rfl
           rw [hexp]
-          cases hpost : rd2.post cfg r.item with
+          cases hpost : rd2.post r.item with
           | finished rd3 =>
             exfalso
             unfold Reader.post at hpost
             cases hi : r.item <;> rw [hi] at hpost hm <;> simp [msgKind] at hm <;>
               (simp only [FItem.cid] at hpost; repeat' split at hpost) <;> simp at hpost
           | err e rd3 => simp [hrep0]
-          | oom rd3 => simp [hrep0]
           | item out rd3 =>
             obtain ⟨hnt, _, _, _⟩ := post_item_facts hpost hnts
             obtain ⟨hex, hI3⟩ := post_sums hI2 hrg hnts hpost
@@ -480,14 +474,13 @@ theorem interp_sums (cfg : Cfg) : ∀ (rs : List Rec) (t : Tail) (rd : Reader) (
               expectedItem S r.item :: expectedItems (S.step r.item) (rs.map Rec.item) := by
             cases hi : r.item <;> rw [hi] at hm <;> simp [msgKind] at hm <;> rfl
           rw [hexp]
-          cases hpost : rd2.post cfg r.item with
+          cases hpost : rd2.post r.item with
           | finished rd3 =>
             exfalso
             unfold Reader.post at hpost
             cases hi : r.item <;> rw [hi] at hpost hm <;> simp [msgKind] at hm <;>
               (simp only [FItem.cid] at hpost; repeat' split at hpost) <;> simp at hpost
           | err e rd3 => simp [hrep0]
-          | oom rd3 => simp [hrep0]
           | item out rd3 =>
             obtain ⟨hnt, _, _, _⟩ := post_item_facts hpost hnts
             obtain ⟨hex, hI3⟩ := post_sums hI2 hrg hnts hpost
